@@ -1714,3 +1714,33 @@ def n_str_bytes(ex, callee, a, env):
     it.enum = False
     it.by_value = True
     return it
+
+
+# ----------------------------------------------------------------------------- structural equality (derived PartialEq on core types)
+def values_equal(ex, x, y):
+    """derived-PartialEq semantics on engine values; returns bool or z3 Bool"""
+    x, y = deref(x), deref(y)
+    if isinstance(x, Adt) and isinstance(y, Adt):
+        if x.ty != y.ty or x.variant != y.variant or len(x.f) != len(y.f):
+            return False
+        return And(*[values_equal(ex, p, q) for p, q in zip(x.f, y.f)])
+    if isinstance(x, Tup) and isinstance(y, Tup):
+        if len(x.f) != len(y.f):
+            return False
+        return And(*[values_equal(ex, p, q) for p, q in zip(x.f, y.f)])
+    if isinstance(x, (Slice, HVec, list)) and isinstance(y, (Slice, HVec, list)):
+        a, b = as_slice(x), as_slice(y)
+        if a.len != b.len:
+            return False
+        return And(*[values_equal(ex, p, q) for p, q in zip(a.items(), b.items())])
+    if isinstance(x, (int, bool)) and isinstance(y, (int, bool)):
+        return x == y
+    if is_sym(x) or is_sym(y):
+        return _eq(x, y) if not (is_sym(x) and is_sym(y)) else x == y
+    raise Unsupported(f'equality of {x!r} and {y!r}')
+
+
+@native(r'^<(Option|core::option::Option|Result|core::result::Result|\(.*\)|&.*)(<.*>)? as PartialEq(<.*>)?>::(eq|ne)$', 'derived PartialEq::eq')
+def n_struct_eq(ex, callee, a, env):
+    r = values_equal(ex, a[0], a[1])
+    return Not(r) if callee.endswith('::ne') else r
